@@ -14,7 +14,8 @@ namespace rb = ipr::util::rb_tree;
 #endif
 
 namespace {
-   struct IntCmp { int operator()(int a, int b) const { return a < b ? -1 : (a > b ? 1 : 0); } };
+   // a three-way comparison: only the sign of the result is meaningful, so the magnitudes vary with the operands (-1, -3, 1, 2)
+   struct IntCmp { int operator()(int a, int b) const { return a < b ? ((a & 1) ? -1 : -3) : (a > b ? ((b & 1) ? 1 : 2) : 0); } };
 
    // Shape reader: derived from the protected core.
    template<class Tree, class Node>
